@@ -1,6 +1,6 @@
 SPECIFICATION Spec
 CONSTANT ByRef = FALSE
-CONSTANT Rounds = 1
+CONSTANT Rounds = 2
 CONSTANT ResetOnStart = TRUE
 INVARIANTS InvokedLive Once FinishedOnlyAfter JoinAfterFinish NoDeadlock
 CHECK_DEADLOCK FALSE
